@@ -131,7 +131,10 @@ class State:
         t = time.time()
         self.solver.push()
         self.solver.add(cond)
-        r = self.solver.check()
+        try:
+            r = self.solver.check()
+        except z3.Z3Exception:
+            r = z3.unknown
         self.solver.pop()
         self.x.feas_queries += 1
         self.x.feas_secs += time.time() - t
